@@ -189,6 +189,10 @@ func c15(w *core.World, r *core.Report) {
 
 	r.Rule("R15.7", "one lease per shard: the election key derives from the shard master's address and nothing instance-specific", 1)
 	ruleElectionKey(w, r)
+	r.Rule("R15.8", "the identity an instance campaigns with is the address it advertises to its peers", 1)
+	ruleElectionIdentity(w, r)
+	r.Rule("R15.9", "the lease ttl reaches the election in the unit the scripts use it in (seconds)", 1)
+	ruleLeaseTtlUnit(w, r)
 
 	r.Rule("R15.6", "configuration: renew interval <= lease timeout / 3 after the last write of either field", 2)
 	ruleLeaseConfig(w, r)
@@ -284,6 +288,7 @@ func ruleCampaignScript(r *core.Report, script string, pos token.Pos) {
 				for i := 3; i+1 < len(a); i++ {
 					if (strings.EqualFold(a[i].Val, "EX") || strings.EqualFold(a[i].Val, "PX")) && a[i+1].String() == "ARGV[2]" {
 						hasEx = true
+						leaseScriptUnits[strings.ToUpper(a[i].Val)] = true
 					}
 				}
 				if len(a) < 3 || a[2].String() != "ARGV[1]" || !hasEx {
@@ -292,6 +297,7 @@ func ruleCampaignScript(r *core.Report, script string, pos token.Pos) {
 				}
 				okWrite = true
 			case "EXPIRE", "PEXPIRE":
+				leaseScriptUnits[map[string]string{"EXPIRE": "EX", "PEXPIRE": "PX"}[cmd]] = true
 				if len(a) != 3 || a[2].String() != "ARGV[2]" {
 					r.Fail("Campaign/script", pos, "the lease must be extended by the ttl argument: %s", c.String())
 					return
@@ -707,4 +713,85 @@ func loadedFieldName(v ssa.Value) (string, ssa.Value) {
 		}
 	}
 	return "", nil
+}
+
+// ---------------------------------------------------------------- R15.8 / R15.9 what the election is parameterised with
+
+// ruleElectionIdentity: the scripts tell holders apart by the stored id only
+// (R15.1). The id an instance campaigns with must be the address it advertises
+// to its peers (Server.ListenPeer), which differs between instances; a bind
+// address (Server.Listen, typically 0.0.0.0:port everywhere) makes every
+// contender "the owner".
+func ruleElectionIdentity(w *core.World, r *core.Report) {
+	f := fn(w, r, "(*cmd.SyncerCmd).runCluster")
+	if f == nil {
+		return
+	}
+	n := 0
+	for _, g := range core.DeepFuncs(f) {
+		for _, s := range core.Sites(g, false) {
+			if s.Instr.Parent() != g || (s.Method != "NewElection" && !strings.HasSuffix(s.Name, ".NewElection")) {
+				continue
+			}
+			n++
+			a := s.Common().Args
+			id := a[len(a)-1]
+			ok := core.DependsOn(id, func(v ssa.Value) bool { return fieldNameOfLoad(v) == "ListenPeer" })
+			r.Check(ok, "runCluster/election-identity", s.Pos(), "the identity an instance campaigns with does not derive from the address it advertises to its peers (Server.ListenPeer): instances that share a bind address present the same id, and the compare-and-set script grants the lease to each of them")
+		}
+	}
+	if n == 0 {
+		r.Fail("runCluster/election-identity", f.Pos(), "no election is created")
+	}
+}
+
+// ruleLeaseTtlUnit: the Redis election writes the lease with SET … EX <ttl> /
+// EXPIRE <ttl>: seconds. The ttl handed to the cluster client must be the
+// configured lease timeout in seconds; any other unit makes the lease outlive a
+// dead holder by orders of magnitude (or expire between renewals).
+// leaseScriptUnits: the expiry options the election scripts use (filled while the scripts are checked).
+var leaseScriptUnits = map[string]bool{}
+
+func ruleLeaseTtlUnit(w *core.World, r *core.Report) {
+	n := 0
+	for _, g := range w.FuncsIn("cmd") {
+		for _, s := range core.SitesNamed(g, false, "pkg/cluster.NewRedisCluster") {
+			if s.Instr.Parent() != g {
+				continue
+			}
+			n++
+			a := s.Common().Args
+			ttl := a[len(a)-1]
+			ok := false
+			// the unit the scripts use the ttl in (read from the Lua text by R15.1/R15.2): EX/EXPIRE seconds, PX/PEXPIRE milliseconds
+			wantDiv, wantMethod := int64(1000000000), "(time.Duration).Seconds"
+			if leaseScriptUnits["PX"] && !leaseScriptUnits["EX"] {
+				wantDiv, wantMethod = 1000000, "(time.Duration).Milliseconds"
+			}
+			core.Walk(ttl, func(v ssa.Value) bool {
+				switch x := v.(type) {
+				case *ssa.BinOp:
+					// LeaseTimeout / time.Second
+					if x.Op == token.QUO && fieldNameOfLoad(core.Unwrap(x.X)) == "LeaseTimeout" {
+						if k, isK := core.ConstInt(x.Y); isK && k == wantDiv {
+							ok = true
+						}
+					}
+				case *ssa.Call:
+					if core.ResolveCall(x).Name == wantMethod && len(x.Call.Args) == 1 && fieldNameOfLoad(core.Unwrap(x.Call.Args[0])) == "LeaseTimeout" {
+						ok = true
+					}
+				}
+				return true
+			})
+			if leaseScriptUnits["PX"] && leaseScriptUnits["EX"] {
+				ok = false // the scripts themselves disagree on the unit
+			}
+			r.Check(ok, shortName(core.FuncName(outermost(g)))+"/lease-ttl-in-seconds", s.Pos(), "the ttl given to the Redis election is not the configured lease timeout in seconds (the scripts use it with EX / EXPIRE)")
+		}
+	}
+	if n == 0 {
+		r.OK("lease-ttl-in-seconds", token.NoPos, "no Redis election configured in this build")
+	}
+	_ = n
 }
